@@ -50,6 +50,10 @@ class C12(framework.PropertyCheck):
             for _k in range(L):
                 ops.append(list(rng.choice(ALPHABET)))
             if rng.random() < 0.15:
+                # two traces at different positions, then one request for both whose amount is computed from a position
+                ops = [['load', 't0'], ['load', 'tB'], ['stepid', 'tB', rng.choice([1, 2])], ['stepid', 't0', rng.choice([0, 1])],
+                       list(rng.choice([['stepexpr', ['t0', 'tB'], 3], ['stepexpr', ['tB', 't0'], 2], ['stepexpr', ['t0', 'tB'], 2]]))] + ops[1:3]
+            if rng.random() < 0.15:
                 # a request that names a trace that is not loaded is refused (it ends the history: the language has no handler)
                 ops.append(['stepmissing', rng.choice([['nosuch'], ['t0', 'nosuch'], ['nosuch', 'tB']]), rng.choice([1, -1])])
             yield {'ops': ops}
